@@ -81,7 +81,7 @@ def main(run: core.Run) -> None:
 
     drift = R.fingerprint_drift()
     run.coverage["fingerprint_drift"] = drift
-    n_models = run.size(3000, 12000)
+    n_models = run.size(2000, 12000)
     if drift and run.tier == "quick":
         n_models *= 3
     models = R.gen_stream(run, n_models, stats)
@@ -91,7 +91,7 @@ def main(run: core.Run) -> None:
 
     # ---- the property's own oracle, routinely: ORT before/after, several APIs and option tuples
     sem_failures = []
-    n_sem = run.size(1400, 5000)
+    n_sem = run.size(700, 5000)
     for k, (m, meta) in enumerate(models[:n_sem]):
         feeds = R.three_feeds(m, run.rng)
         combos = [("optimize", R.OPTION_TUPLES[k % len(R.OPTION_TUPLES)]), ("optimize", {}),
